@@ -219,8 +219,13 @@ class TlcResult:
             self.generated = int(m.group(1))
             self.distinct = int(m.group(2))
         self.violated = re.findall(r"Error: Invariant (\w+) is violated", out)
+        self.violated += ["assumption@" + m for m in re.findall(r"Error: Assumption (line \d+)", out)]
+        self.violated += re.findall(r"Error: Action property (\w+) is violated", out)
+        self.violated += ["temporal" for _ in re.findall(r"Error: Temporal properties were violated", out)]
         self.ok_finished = "Model checking completed. No error has been found." in out
-        self.errors = [l for l in out.splitlines() if l.startswith("Error:") and "is violated" not in l]
+        self.errors = [l for l in out.splitlines() if l.startswith("Error:") and "is violated" not in l
+                       and "Assumption" not in l and "were violated" not in l
+                       and "The behavior up to this point" not in l]
 
 
 def run_tlc(module, cfg=None, env=None, workers=NCPU, extra=(), timeout=3600, tag=None, java_opts=()):
